@@ -138,6 +138,16 @@ func (c Config) JSON() []byte {
 	if c.Mangle == "bad-json" {
 		b = b[:len(b)-1]
 	}
+	switch c.Mangle {
+	case "null-document":
+		b = []byte("null")
+	case "null-trafficshape":
+		b = []byte(`{"trafficshape":null}`)
+	case "array-document":
+		b = []byte("[]")
+	case "empty-body":
+		b = nil
+	}
 	return b
 }
 
